@@ -525,10 +525,13 @@ def _pair_task(t):
 
 def _task(t):
     if isinstance(t, tuple) and t[0] == "~pair":
-        return _pair_task(t)
-    if t == "~config":
-        return _config_task(t)
-    return _setting_task(t)
+        r = _pair_task(t)
+    elif t == "~config":
+        r = _config_task(t)
+    else:
+        r = _setting_task(t)
+    r["scratch"] = _STATE.get("dir")        # pool workers do not run atexit handlers: the parent removes the directories
+    return r
 
 
 def setting_names():
@@ -548,6 +551,9 @@ def run(ctx):
         tasks.append(("~pair", a, partners))
     random.Random(ctx.seed).shuffle(tasks)
     res = par.pmap(_task, tasks, chunksize=1)
+    for dpath in {r.get("scratch") for r in res}:
+        if dpath and os.path.basename(dpath).startswith("verif-c16-"):
+            shutil.rmtree(dpath, ignore_errors=True)
     res.sort(key=lambda r: r["key"])
     viols = [v for r in res for v in r["viols"]]
     skipped = [r["key"] for r in res if r.get("skipped")]
